@@ -89,6 +89,7 @@ pub fn run() {
                 // C17: reference vs one alternative entry point
                 let variant = props::c17_variants().into_iter().find(|v| v.name == vname).expect("variant");
                 let space = Space {
+                    reset_loop: false,
                     suffix: Vec::new(),
                     tail: Vec::new(),
                     variants: vec![variant],
@@ -114,6 +115,13 @@ pub fn run() {
                 lockstep(&space, &entry, &params, &hist, &reference, &counters, &viols, &stop);
                 match viols.into_inner().unwrap().first() {
                     Some(v) => println!("REPLAY VIOLATION step=0 msg={}", v.msg),
+                    None => println!("REPLAY OK"),
+                }
+                return;
+            }
+            if arg(&args, "--reset-loop").is_some() {
+                match run_reset_loop(&entry, &hist, &params, 6) {
+                    Some(m) => println!("REPLAY VIOLATION step={} msg={m}", hist.len()),
                     None => println!("REPLAY OK"),
                 }
                 return;
